@@ -4,7 +4,7 @@ import sys
 
 import common
 
-GEN = {"LogSpaceGen": "translate_utils", "StagersGen": "translate_stagers", "DepsGen": "translate_systems"}
+GEN = {"LogSpaceGen": "translate_utils", "StagersGen": "translate_stagers", "DepsGen": "translate_systems", "SystemsGen": "translate_bodies"}
 
 
 def main():
